@@ -107,7 +107,8 @@ class Ctx:
         for fid, n in sorted(self.known_hits.items()):
             print('KNOWN-FINDING: property=%s %s: %s (%d cases this run)'
                   % (self.prop, fid, self.findings[fid]['what'], n))
-        rdir = os.path.join(VERIF, 'replay', self.prop)
+        # (runs against another tree - seeded changes - keep their replay files and evidence out of /verif)
+        rdir = os.path.join(os.environ.get('VERIF_REPLAY_BASE') or os.path.join(VERIF, 'replay'), self.prop)
         paths = []
         if self.violations:
             os.makedirs(rdir, exist_ok=True)
@@ -129,8 +130,9 @@ class Ctx:
             'coverage': self.cov, 'assumptions': self.assumptions, 'wall_s': round(wall, 2),
             'violations': len(self.violations),
         }
-        os.makedirs(os.path.join(VERIF, 'evidence'), exist_ok=True)
-        with open(os.path.join(VERIF, 'evidence', self.prop + '.json'), 'w') as fh:
+        evdir = os.environ.get('VERIF_EVIDENCE_DIR') or os.path.join(VERIF, 'evidence')
+        os.makedirs(evdir, exist_ok=True)
+        with open(os.path.join(evdir, self.prop + '.json'), 'w') as fh:
             json.dump(ev, fh, indent=1, default=str)
             fh.write('\n')
         self.cleanup()
